@@ -1,6 +1,6 @@
 # Human-written metadata per check for MANIFEST.json.
 ENGINES = [
-    {"name": "seqx", "path": "/verif/kit (bfs.go) + /verif/checks/*", "serves_properties": ["C02", "C03", "C11", "C12"],
+    {"name": "seqx", "path": "/verif/kit (bfs.go) + /verif/checks/*", "serves_properties": ["C02", "C03", "C11", "C12", "C17", "C19"],
      "kind_free_text": "sequential bounded-exhaustive / explicit-state explorer over the real objects (fresh object + replay per path, canonical state hash)"},
 ]
 
@@ -8,6 +8,20 @@ PENDING = "harness not built yet in this session (planned in DESIGN.md; will be 
 NOT_APPLICABLE = [{"property_id": "C%02d" % i, "reason": PENDING} for i in range(1, 21)]
 
 META = {
+    "C17": {
+        "engine": "seqx",
+        "technique": "depth-bounded exhaustive operation sequences on a shared real frame builder vs byte-level shadow model (deterministic pools)",
+        "design_ref": "DESIGN.md §2 C17",
+        "text": "Every sequence of up to 4 (thorough 5) operations over new (sizes at every pooled tier boundary), parse (of a live frame's bytes and of canned network bytes, through a pooled slice like the link reader), clone, reply/replyTo, set-appendix (0, small, tier-crossing, 10000, 10001), mutate, set-link and release, with at most three live frames on one shared builder, is executed on the real code; after every step every live frame is compared byte-for-byte and field-for-field (addresses, type, block lengths, receive link) with a shadow model, new/parsed frames are checked for stale bytes in their margins and stale link references, and appendix growth must succeed up to the protocol limit while keeping the link margins. Pools are deterministic (single P, GC off) and a gate proves that recycling happens.",
+        "note": "sync.Pool determinism relies on GOMAXPROCS(1)+GC off (gate checked at start); sizes between the enumerated tier-boundary sizes are assumed to behave alike; concurrency of pool use is out of scope here.",
+    },
+    "C19": {
+        "engine": "seqx",
+        "technique": "exhaustive configuration x mapping-history x query enumeration on the real DNS server vs reference precedence function",
+        "design_ref": "DESIGN.md §2 C19",
+        "text": "For each of 13 names (built-in, forbidden, ordinary incl. sub-name / mixed-case / trailing-dot config spellings, IDN, non-.myco and edge names), every subset of {resolve entry, friend} holding it, and every history of up to 2 (thorough 3) mapping operations (save with two different addresses, delete, on the name and on an unrelated name) a real dns.Server is built over the real config parser and MemStorage; every query variant (3 case variants x trailing dot x 9 qtypes x 5 qclasses x question count 0/1/2) goes through the real ServeDNS and is compared with a reference precedence function (rcode, returned address, source tag); Lookup is compared directly too. Exhaustive over that grid.",
+        "note": "Wire-level parsing is miekg/dns's; mixed-case friend names in the configuration are excluded (unspecified by the statement); pairwise different addresses per source make the winning source identifiable.",
+    },
     "C02": {
         "engine": "seqx",
         "technique": "exhaustive input cross product + every-bit mutation of real sealed frames vs reference layout",
